@@ -1321,7 +1321,13 @@ def _finalize_results(
 
     min_count = agg.min_count
     if min_count > 0:
-        counts = squeezed["intermediates"][-1]
+        if agg.num_new_vector_dims > 0:
+            # the counts have no new (e.g. quantile) dimension: their dummy axes are at `axis`, not shifted
+            counts = _squeeze_results({"groups": results["groups"], "intermediates": results["intermediates"][-1:]}, axis)[
+                "intermediates"
+            ][0]
+        else:
+            counts = squeezed["intermediates"][-1]
         squeezed["intermediates"] = squeezed["intermediates"][:-1]
 
     # finalize step
